@@ -130,6 +130,7 @@ Definition decode_row (fs code : N) : option (option ts_row) :=
 Inductive case :=
 | G (fs : N) (prefix : string) (rest : str) (code : N)
 | R (fs : N) (i : N)
+| D (fs : N) (i : N)                        (* descriptor i of [declared fs], as declared *)
 | GetCase (fs : N) (query : str) (r : option ts_row)
 | RowCase (fs : N) (r : ts_row).
 
@@ -142,6 +143,7 @@ Definition check_case (c : case) : bool :=
       | None => false
       end
   | R fs i => match nth_error (observed fs) (N.to_nat i) with Some r => check_row fs r | None => false end
+  | D fs i => match nth_error (declared fs) (N.to_nat i) with Some r => row_consistent r | None => false end
   | GetCase fs q r => opt_eqb row_eqb (get (model_registry fs) q) r
   | RowCase fs r => check_row fs r
   end.
